@@ -45,7 +45,17 @@ def build_harness(consts=None):
     key = "_".join("%s%s" % (k.lower(), v) for k, v in sorted(consts.items()))
     if key in _built:
         return _built[key]
-    tdir = os.path.join(HARNESS, "target" if not key else "target-" + key)
+    hdir = HARNESS
+    alt = os.environ.get("VERIF_REPO")
+    if alt and os.path.abspath(alt) != "/repo":
+        # seed testing only: build a scratch copy of the harness against another checkout of smoltcp (a seeded
+        # worktree), so that /repo stays untouched while something else is being checked against it
+        hdir = os.path.join(os.environ.get("VERIF_SCRATCH", "/tmp/vh"), os.path.basename(os.path.abspath(alt)))
+        os.makedirs(hdir, exist_ok=True)
+        subprocess.run(["rsync", "-a", "--delete", "--exclude", "target*", HARNESS + "/", hdir + "/"], check=True)
+        ct = open(os.path.join(hdir, "Cargo.toml")).read().replace('path = "/repo"', 'path = "%s"' % os.path.abspath(alt))
+        open(os.path.join(hdir, "Cargo.toml"), "w").write(ct)
+    tdir = os.path.join(hdir, "target" if not key else "target-" + key)
     env = dict(os.environ)
     env["CARGO_NET_OFFLINE"] = "true"
     env["CARGO_TARGET_DIR"] = tdir
@@ -54,11 +64,11 @@ def build_harness(consts=None):
             del env[k]
     for k, v in consts.items():
         env["SMOLTCP_" + k] = str(v)
-    lock = os.path.join(HARNESS, "Cargo.lock")
+    lock = os.path.join(hdir, "Cargo.lock")
     if not os.path.exists(lock):
         shutil.copy("/repo/Cargo.lock", lock)
     t0 = time.time()
-    p = subprocess.run(["cargo", "build", "--offline", "-q"], cwd=HARNESS, env=env, stdout=subprocess.PIPE,
+    p = subprocess.run(["cargo", "build", "--offline", "-q"], cwd=hdir, env=env, stdout=subprocess.PIPE,
                        stderr=subprocess.STDOUT, text=True)
     if p.returncode != 0:
         sys.stdout.write(p.stdout[-6000:])
